@@ -85,6 +85,38 @@ theorem C20_hash_trace (n seed : Nat) (hn : 1 ≤ n) (ops : List LbOp) (id b req
   simp only [lbInit, RR.init] at this
   exact ⟨this.1, by have := Nat.mod_lt (verifHash seed req) (show n > 0 by omega); omega⟩
 
+/-- **C20 (consistent hash, the pick is stateless).**  The index computed by `ConsistentHash::call` is a function
+of (hasher, request, number of backends) only: whatever the mock backends have been told to answer
+(`results`), whatever calls are outstanding, the pick is `hash req % n`. -/
+theorem C20_hash_pick_pure (s : LbSt) (hk : s.kind = .hash) (results pending : List (Nat × Nat)) (req : Nat) :
+    (pickBackend { s with results := results, pending := pending } req).2
+      = chIndex (verifHash s.hseed) s.rr.n req := by
+  simp [pickBackend, hk]
+
+/-- **C20 (consistent hash, statelessness across histories).**  Take any two histories of one stub
+configuration (`n ≥ 1` backends, hasher seed) — arbitrary interleavings of call creations, first polls,
+drops and `set-result` ops that make backends answer `Ok`, `Shutdown`, `DeadlineExceeded` or `Server`
+errors at any point.  Whenever a request `req` is dispatched in either of them, it reaches the same valid
+backend: nothing a backend returned earlier moves a request elsewhere. -/
+theorem C20_hash_stateless (n seed : Nat) (hn : 1 ≤ n) (ops₁ ops₂ : List LbOp) (id₁ id₂ b₁ b₂ req : Nat)
+    (h₁ : LbObs.picked id₁ b₁ req ∈ (lbRun (lbInit .hash n seed) ops₁).2)
+    (h₂ : LbObs.picked id₂ b₂ req ∈ (lbRun (lbInit .hash n seed) ops₂).2) :
+    b₁ = b₂ ∧ b₁ < n := by
+  have e₁ := C20_hash_trace n seed hn ops₁ id₁ b₁ req h₁
+  have e₂ := C20_hash_trace n seed hn ops₂ id₂ b₂ req h₂
+  exact ⟨by rw [e₁.1, e₂.1], e₁.2⟩
+
+/-- **C20 (load balancing, the caller gets the picked backend's own answer).**  Every dispatch of the op-level
+model is followed by the answer of exactly the backend that was picked (the monitor's `answered` rule);
+stated as monitor acceptance in `C20_monitor_accepts_lb`.  Here: a `set-result` op never changes a later
+pick of the consistent-hash stub. -/
+theorem C20_hash_set_result_irrelevant (n seed : Nat) (hn : 1 ≤ n) (ops : List LbOp) (b k : Nat)
+    (id₁ id₂ b₁ b₂ req : Nat)
+    (h₁ : LbObs.picked id₁ b₁ req ∈ (lbRun (lbInit .hash n seed) ops).2)
+    (h₂ : LbObs.picked id₂ b₂ req ∈ (lbRun (lbInit .hash n seed) (.setResult b k :: ops)).2) :
+    b₁ = b₂ :=
+  (C20_hash_stateless n seed hn ops (.setResult b k :: ops) id₁ id₂ b₁ b₂ req h₁ h₂).1
+
 /-! ## Retry -/
 
 /-- **C20 (retry).**  Let the backend answer `rs[0], rs[1], …`, let `k` be the index of the first answer the
@@ -92,28 +124,60 @@ policy declines to retry (it accepts `rs[j]` at attempt `j+1` for all `j < k`, d
 attempt `k+1`).  Then `Retry::call` returns `r` unchanged; the policy was passed attempt numbers
 `1, 2, …, k+1` in this order, together with the results `rs[0..k]` in order; it answered "retry" `k` times
 and then "stop"; and every attempt gave the backend the identical request. -/
-theorem C20_retry {Req Res : Type} (policy : Res → Nat → Bool) (req : Req) (rs : List Res) (k : Nat) (r : Res)
+theorem C20_retry {Ctx Req Res : Type} (policy : Res → Nat → Bool) (ctx : Ctx) (req : Req) (rs : List Res)
+    (k : Nat) (r : Res)
     (hk : rs[k]? = some r)
     (hretry : ∀ j rj, j < k → rs[j]? = some rj → policy rj (j + 1) = true)
     (hstop : policy r (k + 1) = false) :
-    (retryCall policy req rs).2 = some r ∧
-    (retryCall policy req rs).1.map (·.attempt) = List.range' 1 (k + 1) ∧
-    (retryCall policy req rs).1.map (·.result) = rs.take (k + 1) ∧
-    (retryCall policy req rs).1.map (·.retried) = List.replicate k true ++ [false] ∧
-    (∀ a ∈ (retryCall policy req rs).1, a.req = req) :=
-  retryLoop_spec policy req rs 1 k r hk
+    (retryCall policy ctx req rs).2 = some r ∧
+    (retryCall policy ctx req rs).1.map (·.attempt) = List.range' 1 (k + 1) ∧
+    (retryCall policy ctx req rs).1.map (·.result) = rs.take (k + 1) ∧
+    (retryCall policy ctx req rs).1.map (·.retried) = List.replicate k true ++ [false] ∧
+    (∀ a ∈ (retryCall policy ctx req rs).1, a.req = req) :=
+  retryLoop_spec policy ctx req rs 1 k r hk
     (fun j rj hj hrj => by rw [Nat.add_comm]; exact hretry j rj hj hrj)
     (by rw [Nat.add_comm]; exact hstop)
 
 /-- **C20 (retry, policy never declines).**  If the policy asks for a retry after every scripted answer,
 the call does not return (the stub keeps re-issuing for as long as the backend answers); the policy saw
 attempts `1 … |rs|` with exactly the backend's answers. -/
-theorem C20_retry_never_declines {Req Res : Type} (policy : Res → Nat → Bool) (req : Req) (rs : List Res)
-    (hretry : ∀ j rj, rs[j]? = some rj → policy rj (j + 1) = true) :
-    (retryCall policy req rs).2 = none ∧
-    (retryCall policy req rs).1.map (·.attempt) = List.range' 1 rs.length ∧
-    (retryCall policy req rs).1.map (·.result) = rs :=
-  retryLoop_never policy req rs 1 (fun j rj hrj => by rw [Nat.add_comm]; exact hretry j rj hrj)
+theorem C20_retry_never_declines {Ctx Req Res : Type} (policy : Res → Nat → Bool) (ctx : Ctx) (req : Req)
+    (rs : List Res) (hretry : ∀ j rj, rs[j]? = some rj → policy rj (j + 1) = true) :
+    (retryCall policy ctx req rs).2 = none ∧
+    (retryCall policy ctx req rs).1.map (·.attempt) = List.range' 1 rs.length ∧
+    (retryCall policy ctx req rs).1.map (·.result) = rs :=
+  retryLoop_never policy ctx req rs 1 (fun j rj hrj => by rw [Nat.add_comm]; exact hretry j rj hrj)
+
+/-- **C20 / C07 (retry, same context at every attempt).**  Unconditionally — for every policy, every result
+sequence (of whatever kind: `Ok`, `Server`, `Shutdown`, `DeadlineExceeded`, `Send` … are all just values of
+`Res`), whether or not the call ever returns — every attempt hands the backend exactly the caller's context
+(same deadline, same trace context) and the caller's request, and the attempts are numbered 1, 2, 3, …
+without gaps or repetitions.  (For C07: the deadline of a retried nested call is the caller's own, so it
+never outlives it.) -/
+theorem C20_retry_same_context {Ctx Req Res : Type} (policy : Res → Nat → Bool) (ctx : Ctx) (req : Req)
+    (rs : List Res) :
+    (∀ a ∈ (retryCall policy ctx req rs).1, a.ctx = ctx ∧ a.req = req) ∧
+    (retryCall policy ctx req rs).1.map (·.attempt) = List.range' 1 (retryCall policy ctx req rs).1.length :=
+  retryLoop_same policy ctx req rs 1
+
+/-- **C20 / C07 (retry, op level).**  In the op-level model — scripted backend answers that each take an
+arbitrary amount of virtual time, any policy table — every context the mock backend records during
+`Retry::call(ctx, req)` (completed attempts and the one that never answers) is the caller's `ctx`: the
+deadline is still `now₀ + d` where `now₀` is the time the call started, however late the attempt is made. -/
+theorem C20_retry_trace_same_context (s : RtSt) (q d tid span : Nat) (smp : Bool) :
+    ∀ rec ∈ attemptRecords (rtStep s (.call q d tid span smp)).2,
+      rec.2.2 = { deadline := s.now + d, traceId := tid, spanId := span, sampled := smp } := by
+  intro rec h
+  simp only [rtStep, retryCall, attemptRecords_append, List.mem_append] at h
+  rcases h with (h | h) | h
+  · simp [attemptRecords] at h
+  · exact flatObs_records _ _ _ _
+      (fun a ha => ((retryLoop_same s.policy.eval _ q (s.results.map (·.1)) 1).1 a ha).1) rec h
+  · cases hout : (retryLoop s.policy.eval
+        ({ deadline := s.now + d, traceId := tid, spanId := span, sampled := smp } : RtCtx) q 1
+        (s.results.map (·.1))).2 with
+    | none => rw [hout] at h; simp [callTail, attemptRecords] at h; rw [h]
+    | some r => rw [hout] at h; simp [callTail, attemptRecords] at h
 
 /-! ## Monitor acceptance (the monitors run on the implementation's traces accept every model trace) -/
 
@@ -127,8 +191,10 @@ theorem C20_monitor_accepts_lb (kind : Kind) (n seed : Nat) (hn : 1 ≤ n) (ops 
   (lbRun_good hn ops (lbInit_good kind n seed) (by simpa [lbInit, RR.init, W] using hlen)).ok
 
 /-- **C20 (monitor form, retry).**  From any policy/backend-script state and for every sequence of
-`result` / `decide` / `call` ops the monitor accepts the model's trace: attempts numbered 1, 2, 3, …,
-the same request every time, a return exactly when the policy declines, with the result it declined. -/
+`result` (any of `Ok` / error / `Send`, any delay) / `decide` / `call` (any deadline and trace context) ops
+the monitor accepts the model's trace: attempts numbered 1, 2, 3, …, the same request and the caller's
+context (deadline, trace context) every time, a return exactly when the policy declines, with the result
+it declined. -/
 theorem C20_monitor_accepts_retry (s : RtSt) (ops : List RtOp) :
     (monRt (rtRun s ops).2).accepts = true := by
   have g := rtRun_good ops s (m := {}) ⟨rfl, rfl⟩
@@ -158,8 +224,9 @@ example :
     (lbRun (lbInit .rr 3) [.call 10, .call 11, .call 12, .call 13, .call 14, .call 15, .call 16,
         .poll 3, .poll 0, .drop 5, .poll 6, .poll 1, .poll 5, .poll 2, .poll 4]).2 =
       [.created 0 10, .created 1 11, .created 2 12, .created 3 13, .created 4 14, .created 5 15,
-       .created 6 16, .picked 3 0 13, .picked 0 1 10, .dropped 5, .picked 6 2 16, .picked 1 0 11, .noop,
-       .picked 2 1 12, .picked 4 2 14] ∧
+       .created 6 16, .picked 3 0 13, .answered 3 0, .picked 0 1 10, .answered 0 0, .dropped 5,
+       .picked 6 2 16, .answered 6 0, .picked 1 0 11, .answered 1 0, .noop,
+       .picked 2 1 12, .answered 2 0, .picked 4 2 14, .answered 4 0] ∧
     (monLb .rr 3 (lbRun (lbInit .rr 3) [.call 10, .call 11, .call 12, .call 13, .call 14, .call 15,
         .call 16, .poll 3, .poll 0, .drop 5, .poll 6, .poll 1, .poll 5, .poll 2, .poll 4]).2).ok = true := by
   decide
@@ -177,23 +244,63 @@ example :
     (monLb .hash 3 [.created 0 9, .created 1 9, .picked 0 1 9, .picked 1 1 9]).ok = true := by
   decide
 
-/-- A retry episode with two retries, and one where the backend stops answering; the hypotheses of
-`C20_retry` are satisfiable with `k = 2`. -/
+/-- A backend that reports `Shutdown` keeps its requests: for every hasher seed, request 4 goes to the backend
+`b` its hash designates before and after `b` starts answering `Shutdown`, and the caller sees `b`'s answers. -/
+example (seed b : Nat) (hb : verifHash seed 4 % 3 = b) :
+    (lbRun (lbInit .hash 3 seed) [.call 4, .poll 0, .setResult b 1, .call 4, .poll 1]).2 =
+      [.created 0 4, .picked 0 b 4, .answered 0 0, .resultSet b 1,
+       .created 1 4, .picked 1 b 4, .answered 1 1] := by
+  have h : b < 3 := by rw [← hb]; exact Nat.mod_lt _ (by omega)
+  simp [lbRun, lbStep, lbInit, RR.init, lookup, erase, pickBackend, chIndex, resultOf, h, hb]
+
+/-- The consistent-hash monitor rejects a stream in which request 4 moves from backend 1 to backend 2 after
+backend 1 answered `Shutdown`, and one in which the caller does not get the picked backend's answer. -/
 example :
-    (rtRun (rtInit 1 5) [.result (.err 2), .result (.err 3), .result (.ok 9), .call 7, .call 8]).2 =
-      [.start 7, .backend 7, .policy 1 (.err 2) true, .backend 7, .policy 2 (.err 3) true, .backend 7,
-       .policy 3 (.ok 9) false, .ret (.ok 9), .start 8, .backend 8, .stuck] ∧
-    (retryCall (rtInit 1 5).policy.eval 7 [.err 2, .err 3, .ok 9]).2 = some (.ok 9) := by
+    (monLb .hash 3 [.created 0 4, .picked 0 1 4, .answered 0 0, .resultSet 1 1, .created 1 4, .picked 1 1 4,
+        .answered 1 1]).ok = true ∧
+    (monLb .hash 3 [.created 0 4, .picked 0 1 4, .answered 0 0, .resultSet 1 1, .created 1 4, .picked 1 2 4,
+        .answered 1 0]).ok = false ∧
+    (monLb .hash 3 [.created 0 4, .resultSet 1 1, .picked 0 1 4, .answered 0 0]).ok = false := by
   decide
 
-/-- The retry monitor rejects a changed request, a wrong attempt number, an altered return value and a
-return while the policy asked for a retry. -/
+set_option maxRecDepth 100000 in
+/-- A retry episode with two retries (one after a `Send` error) whose backend answers take 150 ms and
+1 ns, and one where the backend stops answering; the hypotheses of `C20_retry` are satisfiable with `k = 2`. -/
 example :
-    (monRt [.start 7, .backend 8]).accepts = false ∧
-    (monRt [.start 7, .backend 7, .policy 2 (.ok 1) false, .ret (.ok 1)]).accepts = false ∧
-    (monRt [.start 7, .backend 7, .policy 1 (.ok 1) false, .ret (.ok 2)]).accepts = false ∧
-    (monRt [.start 7, .backend 7, .policy 1 (.err 1) true, .ret (.err 1)]).accepts = false ∧
-    (monRt [.start 7, .backend 7, .policy 1 (.ok 1) false, .ret (.ok 1)]).accepts = true := by
+    (rtRun (rtInit 1 5) [.result (.send 2) 150000000, .result (.err 3) 1, .result (.ok 9) 0,
+        .call 7 1000 5 6 true, .call 8 0 0 0 false]).2 =
+      [.start 7 0 ⟨1000, 5, 6, true⟩,
+       .backend 7, .attempt 1 0 ⟨1000, 5, 6, true⟩, .policy 1 (.send 2) true,
+       .backend 7, .attempt 2 150000000 ⟨1000, 5, 6, true⟩, .policy 2 (.err 3) true,
+       .backend 7, .attempt 3 150000001 ⟨1000, 5, 6, true⟩, .policy 3 (.ok 9) false, .ret (.ok 9),
+       .start 8 150000001 ⟨150000001, 0, 0, false⟩, .backend 8, .attempt 1 150000001 ⟨150000001, 0, 0, false⟩,
+       .stuck] ∧
+    (retryCall (rtInit 1 5).policy.eval () 7 [.send 2, .err 3, .ok 9]).2 = some (.ok 9) := by
+  decide
+
+set_option maxRecDepth 100000 in
+/-- The retry monitor rejects a changed request, a wrong attempt number (also: an attempt number repeated
+after a `Send` error), an altered return value, a return while the policy asked for a retry, a changed
+trace context, and a retry whose deadline was moved (tagged C07). -/
+example :
+    (monRt [.start 7 0 ⟨9, 1, 2, true⟩, .backend 8]).accepts = false ∧
+    (monRt [.start 7 0 ⟨9, 1, 2, true⟩, .backend 7, .attempt 1 0 ⟨9, 1, 2, true⟩, .policy 2 (.ok 1) false,
+        .ret (.ok 1)]).accepts = false ∧
+    (monRt [.start 7 0 ⟨9, 1, 2, true⟩, .backend 7, .attempt 1 0 ⟨9, 1, 2, true⟩, .policy 1 (.send 0) true,
+        .backend 7, .attempt 2 0 ⟨9, 1, 2, true⟩, .policy 1 (.ok 1) false, .ret (.ok 1)]).verdict =
+      some "[C20] policy was passed attempt number 1, expected 2" ∧
+    (monRt [.start 7 0 ⟨9, 1, 2, true⟩, .backend 7, .attempt 1 0 ⟨9, 1, 2, true⟩, .policy 1 (.ok 1) false,
+        .ret (.ok 2)]).accepts = false ∧
+    (monRt [.start 7 0 ⟨9, 1, 2, true⟩, .backend 7, .attempt 1 0 ⟨9, 1, 2, true⟩, .policy 1 (.err 1) true,
+        .ret (.err 1)]).accepts = false ∧
+    (monRt [.start 7 0 ⟨9, 1, 2, true⟩, .backend 7, .attempt 1 0 ⟨9, 1, 3, true⟩, .policy 1 (.ok 1) false,
+        .ret (.ok 1)]).accepts = false ∧
+    (monRt [.start 7 0 ⟨9, 1, 2, true⟩, .backend 7, .attempt 1 0 ⟨9, 1, 2, true⟩, .policy 1 (.err 1) true,
+        .backend 7, .attempt 2 5 ⟨14, 1, 2, true⟩, .policy 2 (.ok 1) false, .ret (.ok 1)]).verdict =
+      some ("[C07] attempt 2 of a retried call (issued at 5 ns) carries deadline 14 ns, the caller's deadline " ++
+        "is 9 ns: the retry may outlive the caller by 5 ns") ∧
+    (monRt [.start 7 0 ⟨9, 1, 2, true⟩, .backend 7, .attempt 1 0 ⟨9, 1, 2, true⟩, .policy 1 (.ok 1) false,
+        .ret (.ok 1)]).verdict = none := by
   decide
 
 end TarpcModel.Stubs
